@@ -59,7 +59,7 @@ def run(p: Program, rep: Report, tier: str) -> None:
             g = set(e.guards)
             if e.text != "form_memory_size_count += len(event.data)":
                 rep.violation("R15.1", construct(fn, text=e.text), where(fn, e.node), f"{name}: the field-byte counter does not grow by len(event.data)")
-            elif D in g and "file is None" in g and "not event.more_data" not in g:
+            elif D in g and "file is None" in g and "not (event.more_data)" not in g:
                 rep.ok("R15.1", f"{name}: field bytes are counted on every Data event of a field and on no file path")
             else:
                 rep.violation("R15.1", construct(fn, text=f"{e.text} under {sorted(g)[-2:]}"), where(fn, e.node), f"{name}: the field-byte counter is not updated on exactly the in-memory field Data paths")
@@ -95,7 +95,7 @@ def run(p: Program, rep: Report, tier: str) -> None:
             g = set(e.guards)
             if e.text != "form_parts_count += 1":
                 rep.violation("R15.1", construct(fn, text=e.text), where(fn, e.node), f"{name}: the part counter does not grow by exactly 1")
-            elif D in g and "not event.more_data" in g and "file is None" not in g and "not (file is None)" not in g:
+            elif D in g and "not (event.more_data)" in g and "file is None" not in g and "not (file is None)" not in g:
                 rep.ok("R15.1", f"{name}: parts are counted once per completed part, field or file")
             else:
                 rep.violation("R15.1", construct(fn, text=f"{e.text} under {sorted(g)[-2:]}"), where(fn, e.node), f"{name}: the part counter is not updated on exactly the last-Data paths of both fields and files")
@@ -115,7 +115,7 @@ def run(p: Program, rep: Report, tier: str) -> None:
                     rep.violation("R15.1", construct(fn, text=cond), where(fn, r.node), f"{name}: the part limit test is not `form_parts_count > max_form_parts` directly after the increment")
         # ---- R15.5
         wr = one("call", lambda e: e.text == "file.write(event.data)")
-        if wr and D in wr[0].guards and "not event.more_data" not in wr[0].guards:
+        if wr and D in wr[0].guards and "not (event.more_data)" not in wr[0].guards:
             rep.ok("R15.5", f"{name}: upload data is written to the file sink on every Data event")
         else:
             rep.violation("R15.5", construct(fn, text="file.write(event.data)"), where(fn), f"{name}: upload data is not streamed to the file sink as it arrives")
